@@ -370,6 +370,20 @@ func (r *Raft) restore() error {
 		if err := file.Close(); err != nil {
 			return fmt.Errorf("could not close snapshot file: %w", err)
 		}
+
+		// The installation of a snapshot received from the leader may have been interrupted
+		// after the snapshot was persisted but before the log was replaced. If the log does
+		// not start at the snapshot and does not contain its last entry either, it is left
+		// over from before the snapshot and has to be discarded now.
+		firstIndex := r.log.NextIndex() - uint64(r.log.Size()) - 1
+		if firstIndex < r.lastIncludedIndex {
+			entry, _ := r.log.GetEntry(r.lastIncludedIndex)
+			if entry == nil || entry.Term != r.lastIncludedTerm {
+				if err := r.log.DiscardEntries(r.lastIncludedIndex, r.lastIncludedTerm); err != nil {
+					return fmt.Errorf("could not discard log entries: %w", err)
+				}
+			}
+		}
 	}
 
 	// Use the most recent configuration from the log.
